@@ -110,7 +110,10 @@ impl Property for C13 {
             let mut c = Choices::new(&e);
             let item = gen_item_bytes(&mut c, true);
             let l = item.len();
-            let lens: Vec<usize> = (0..=40).chain((300usize.saturating_sub(l + 3))..=(303usize.saturating_sub(l).max(1))).chain([500, 1000]).collect();
+            let lens: Vec<usize> = (0..=40).chain((300usize.saturating_sub(l + 3))..=(303usize.saturating_sub(l).max(1))).chain([500, 1000])
+                // total buffer lengths around multiples of 64 KiB (length arithmetic narrowed to 16 bits)
+                .chain([65535usize.saturating_sub(l), 65536usize.saturating_sub(l), 65537usize.saturating_sub(l), 65536 - 1, 65536, 65536 + 1, 65536 + l / 2, 131072usize.saturating_sub(l), 131072 + 3])
+                .collect();
             lens.into_iter().map(move |sl| {
                 Case::Stream(StreamCase { items: vec![item.clone()], suffix: vec![(sl % 251) as u8; sl], as_list: false, label: "suffix-sweep".into() })
             })
